@@ -30,8 +30,10 @@ Neg(a) == (P - a) % P
    in scope; a variable bound over a singleton set holds the evaluated value *)
 Let(e, F(_)) == CHOOSE r \in {F(v) : v \in {e}} : TRUE
 RECURSIVE PowF(_, _)
-PowF(a, e) == IF e = 0 THEN 1 ELSE Mul(a, PowF(a, e - 1))
-InvTab == TLCEval([a \in 1..(P - 1) |-> PowF(a, P - 2)])
+PowF(a, e) == IF e = 0 THEN 1                      \* square and multiply: shallow recursion
+              ELSE IF e % 2 = 1 THEN Mul(a, PowF(a, e - 1))
+              ELSE Let(PowF(a, e \div 2), LAMBDA h : Mul(h, h))
+InvTab == TLCEval([a \in 1..(P - 1) |-> CHOOSE b \in 1..(P - 1) : (a * b) % P = 1])
 Inv(a) == InvTab[a]                       \* a # 0
 Div(a, b) == Mul(a, InvTab[b])
 
